@@ -13,6 +13,7 @@ observe leaves only through `==`, truthiness and isinstance(., dict)).
 import copy
 import itertools
 import json
+import re
 
 from harness.common import exc_name, jdump
 
@@ -20,9 +21,55 @@ PID = "C07"
 TITLE = "Nested-dictionary algebra: intersection, difference and recursive update"
 LEAN_MODULES = ["LenaModel.Props.C07"]
 LEAN_SOURCES = ["LenaModel/Model/Val.lean", "LenaModel/Model/C07.lean", "LenaModel/Lemmas/C07.lean",
-                "LenaModel/Props/C07.lean"]
+                "LenaModel/Lemmas/C07Update.lean", "LenaModel/Lemmas/C07Nested.lean", "LenaModel/Props/C07.lean"]
 DRIVER = "drivers/C07.lean"
 THEOREMS = [
+    # containment (the order the statement speaks about)
+    "Lena.C07.cont_refl",
+    "Lena.C07.cont_trans",
+    "Lena.C07.cont_antisymm",
+    # intersection: greatest lower bound, hence commutative / associative / idempotent
+    "Lena.C07.interN_cons",
+    "Lena.C07.inter_lower",
+    "Lena.C07.inter_greatest",
+    "Lena.C07.inter_wf",
+    "Lena.C07.inter_unique",
+    "Lena.C07.inter_perm",
+    "Lena.C07.inter_comm",
+    "Lena.C07.inter_assoc",
+    "Lena.C07.inter_idem",
+    "Lena.C07.inter_eq_left_iff",
+    "Lena.C07.inter_nil_single",
+    "Lena.C07.inter_level0",
+    "Lena.C07.inter_level1_key",
+    "Lena.C07.inter_key",
+    "Lena.C07.intersection_error_iff",
+    # difference: exactly the items of d1 not contained in d2
+    "Lena.C07.diff_exact",
+    "Lena.C07.diff_truthiness_irrelevant",
+    "Lena.C07.diff_key_iff",
+    "Lena.C07.diff_key_value",
+    "Lena.C07.diff_keeps_scalar",
+    "Lena.C07.diff_keeps_empty_dict",
+    "Lena.C07.diff_empty_iff",
+    "Lena.C07.diff_contained",
+    "Lena.C07.diffV_nondict",
+    "Lena.C07.diffV_dict",
+    # reconstruction
+    "Lena.C07.reconstruct",
+    "Lena.C07.reconstruct_call",
+    # update_recursively
+    "Lena.C07.update_contains",
+    "Lena.C07.update_keeps",
+    "Lena.C07.update_keys",
+    "Lena.C07.update_scalar_overwrites",
+    "Lena.C07.update_idem",
+    "Lena.C07.update_error_iff",
+    # update_nested
+    "Lena.C07.update_nested_ok",
+    "Lena.C07.update_nested_keeps",
+    "Lena.C07.update_nested_other_kept",
+    "Lena.C07.update_nested_typeError_iff",
 ]
 TRUSTED = [
     "Lean 4.33.0 kernel; axioms limited to propext, Classical.choice, Quot.sound (audited by #print axioms on every run)",
@@ -124,9 +171,11 @@ def _gen(ctx, n_exh_leaves, n_pair, n_multi, n_nested, n_bad):
     if n_exh_leaves >= 3:
         leaves2.append(rng.choice([x for x in PALETTE if x != f and x != t]))
     u2 = _universe(["a", "b"], leaves2, 2)
-    for a in u2:
-        for b in u2:
-            cases.append({"op": "pair", "a": a, "b": b, "levels": LEVELS})
+    for i, a in enumerate(u2):
+        for j, b in enumerate(u2):
+            # ("paths": also compare the Lean path vocabulary untouchedL/getPath with the Python reference; on a quarter of
+            # the exhaustive scope and on every sampled pair)
+            cases.append({"op": "pair", "a": a, "b": b, "levels": LEVELS, "paths": (i + j) % 4 == 0})
     leaves3 = [rng.choice(FALSY), rng.choice(TRUTHY), rng.choice(PALETTE)]
     u3 = _universe(["a", "b", "c"], leaves3, 1)
     for a in u3:
@@ -152,7 +201,7 @@ def _gen(ctx, n_exh_leaves, n_pair, n_multi, n_nested, n_bad):
         b = _mutate(rng, a, keys3, leaves) if rng.random() < 0.6 else _rand_dict(rng, keys3, depth, leaves)
         if rng.random() < 0.5:
             a, b = b, a
-        cases.append({"op": "pair", "a": a, "b": b, "levels": LEVELS})
+        cases.append({"op": "pair", "a": a, "b": b, "levels": LEVELS, "paths": True})
     for _ in range(n_multi):
         depth = rng.choice([1, 2, 2, 3])
         leaves = PALETTE if rng.random() < 0.5 else rng.sample(PALETTE, 3)
@@ -524,8 +573,10 @@ def model_requests(case):
     n = len(e.keys)
     if op == "pair":
         a, b = e.val(case["a"]), e.val(case["b"])
-        return [{"op": "pair", "n": n, "a": a, "b": b, "levels": case["levels"], "falsy": e.falsy()},
-                {"op": "paths", "d": a, "o": b, "paths": [e.path(p) for p in _pair_paths(case)]}]
+        reqs = [{"op": "pair", "n": n, "a": a, "b": b, "levels": case["levels"], "falsy": e.falsy()}]
+        if case.get("paths"):
+            reqs.append({"op": "paths", "d": a, "o": b, "paths": [e.path(p) for p in _pair_paths(case)]})
+        return reqs
     if op == "multi":
         ds = [e.val(d) for d in case["ds"]]
         reqs = [{"op": "inter", "n": n, "level": case["level"], "ds": ds}]
@@ -561,7 +612,8 @@ def compare(case, res, replies):
             return f"model driver error: {m['err']}"
     e = _enc(case)
     if op == "pair":
-        m, mp = replies
+        m = replies[0]
+        mp = replies[1] if len(replies) > 1 else {"r": []}
         a, b = case["a"], case["b"]
         for lv, r, ml in zip(case["levels"], res["lv"], m["r"]):
             for name in ("iab", "iba", "dab", "rec"):
@@ -570,6 +622,9 @@ def compare(case, res, replies):
                     return f"level {lv}: {name}: impl {got} vs model {ml[name]}"
             if _obs(e, r["iaa"]) != {"r": e.val(a)}:
                 pass  # idempotence is the oracle's business; the model side is a theorem
+            if ml["dspec"] != e.val(ref_diff(lv, a, b)):
+                return (f"level {lv}: Lean `diffSpec` gives {ml['dspec']}, the Python reference of 'the items of d1 not "
+                        f"contained in d2' {e.val(ref_diff(lv, a, b))}")
             ref = {"cab": contained(lv, a, b), "cba": contained(lv, b, a)}
             for name in ("cab", "cba"):
                 if ml[name] != ref[name]:
@@ -653,6 +708,36 @@ def _oracle_inter(lv, ds, res, what):
 
 
 def oracle(case, res):
+    """None if the property's statement holds on this case, else "[tag] description" (the tag is the signature)"""
+    msg = _oracle(case, res)
+    if msg is None:
+        return None
+    for tag, pat in _TAGS:
+        if re.search(pat, msg):
+            return f"[{tag}] {msg}"
+    return "[other] " + msg
+
+
+_TAGS = [
+    ("arguments-changed", r"changed (an argument|d1, d2|other)"),
+    ("not-a-deep-copy", r"deep copy"),
+    ("inter-not-contained", r"is not contained in argument"),
+    ("inter-not-greatest", r"not the greatest"),
+    ("inter-not-commutative", r"not commutative"),
+    ("inter-not-associative", r"not associative"),
+    ("inter-not-idempotent", r"not idempotent"),
+    ("diff-item-dropped", r"not contained in d2 but dropped"),
+    ("diff-item-kept", r"is contained in d2 but kept"),
+    ("diff-not-exact", r"^difference\("),
+    ("no-reconstruction", r"updating the intersection"),
+    ("update-not-containing", r"does not contain other"),
+    ("update-item-lost", r"is not overwritten by other"),
+    ("update-nested", r"^update_nested"),
+    ("exception", r"raised"),
+]
+
+
+def _oracle(case, res):
     op = case["op"]
     if op == "pair":
         a, b = case["a"], case["b"]
@@ -670,9 +755,12 @@ def oracle(case, res):
                 return f"intersection is not commutative at level {lv}: ({a}, {b}) -> {iab}, swapped -> {iba}"
             if iaa != a:
                 return f"intersection is not idempotent at level {lv}: intersection({a}, {a}) = {iaa}"
-            if r["iab_shares"] or r["iaa_shares"]:
-                return (f"intersection(level={lv}) is not a deep copy: its result shares a mutable object with an "
-                        f"argument (d1={a}, d2={b})")
+            if r["iab_shares"]:
+                return (f"intersection({a}, {b}, level={lv}) = {iab} is not a deep copy: it shares a mutable object "
+                        f"(dictionary or list) with an argument")
+            if r["iaa_shares"]:
+                return (f"intersection({a}, {a}, level={lv}) = {iaa} is not a deep copy: it shares a mutable object "
+                        f"(dictionary or list) with its argument")
             # difference: exactly the items of d1 not contained in d2
             if lv != 0:
                 for k in a:
@@ -704,8 +792,9 @@ def oracle(case, res):
             return f"update_recursively({a}, {b}) gives {upd}, which does not contain other"
         for p in _paths(a):
             if untouched(b, p) and get_path(upd, p) != get_path(a, p):
+                after = get_path(upd, p)
                 return (f"update_recursively({a}, {b}) gives {upd}: the item at {'.'.join(p)} is not overwritten by other "
-                        f"but changed from {get_path(a, p)} to {get_path(upd, p)}")
+                        f"but changed from {get_path(a, p)!r} to {'nothing (absent)' if after is _NOPATH else repr(after)}")
         for k in upd:
             if k not in a and k not in b:
                 return f"update_recursively({a}, {b}) gives {upd} with a key {k!r} from nowhere"
@@ -835,7 +924,8 @@ def classify(case, res):
 
 
 def signature(case, failure):
-    return case["op"] + ":" + jdump({k: v for k, v in case.items() if k != "op"})[:300]
+    m = re.match(r"\[([\w-]+)\]", failure or "")
+    return case["op"] + ":" + (m.group(1) if m else "other")
 
 
 def _sub_values(v):
